@@ -313,7 +313,10 @@ class AttributeAssignment:
         :return: True if a type filter condition is needed for the attribute assignment, else False.
         """
         attr_type = self.attr._type_
-        # no filter only where the declared type of the attribute already guarantees the matched type
+        # no filter only where the declared type of the attribute already guarantees the matched type; an optional
+        # attribute can also hold None, which is no instance of the matched type
+        if self.attr._wrapped_field_.is_optional and self.assigned_value.type_:
+            return True
         return (not attr_type) or bool(
             self.assigned_value.type_
             and not issubclass(attr_type, self.assigned_value.type_)
